@@ -42,7 +42,7 @@ func NewGzipHandler(h http.Handler, contentTypes *regexp.Regexp) http.Handler {
 	return http.HandlerFunc(func(w http.ResponseWriter, r *http.Request) {
 		w.Header().Add(headerVary, headerAcceptEncoding)
 
-		if acceptsGzip(r) {
+		if acceptsGzip(r) && r.Method != http.MethodHead {
 			gzWriter := NewGzipResponseWriter(w, contentTypes)
 			defer gzWriter.Close()
 			h.ServeHTTP(gzWriter, r)
@@ -65,7 +65,7 @@ func NewGzipResponseWriter(w http.ResponseWriter, contentTypes *regexp.Regexp) *
 
 func (grw *GzipResponseWriter) WriteHeader(code int) {
 	if grw.writer == nil {
-		if isCompressable(grw.Header(), grw.contentTypes) {
+		if bodyAllowedForStatus(code) && isCompressable(grw.Header(), grw.contentTypes) {
 			grw.Header().Del(headerContentLength)
 			grw.Header().Set(headerContentEncoding, encodingGzip)
 			grw.gzipWriter = gzipWriterPool.Get().(*gzip.Writer)
@@ -102,6 +102,12 @@ func (grw *GzipResponseWriter) Hijack() (net.Conn, *bufio.ReadWriter, error) {
 		return hj.Hijack()
 	}
 	return nil, nil, errors.New("not a Hijacker")
+}
+
+// bodyAllowedForStatus reports whether a response with the given status
+// can have a body. A response without a body is never marked as gzip encoded.
+func bodyAllowedForStatus(code int) bool {
+	return code != http.StatusNoContent && code != http.StatusNotModified
 }
 
 func isCompressable(header http.Header, contentTypes *regexp.Regexp) bool {
